@@ -600,7 +600,13 @@ pub fn level_fields(level: &J) -> Vec<P> {
                     build_node(&g)
                 })
                 .collect();
-            fields.push(alt(cmds).many().map(Val::List).boxed());
+            // (collected with `many()` or with `some(..)`, as the first of them says)
+            let a = alt(cmds);
+            fields.push(if s(f, "arity") == "some" {
+                a.some(leak(&format!("SOMEMSG-{}", s(f, "id")))).map(Val::List).boxed()
+            } else {
+                a.many().map(Val::List).boxed()
+            });
         }
     }
     if let Some(tail) = level.get("tail") {
